@@ -18,6 +18,7 @@ import CaddyModel.C08.Lemmas
 import CaddyModel.C08.Keys
 import CaddyModel.C10.Lemmas
 import CaddyModel.C08.Witness
+import CaddyModel.C08.Dynamic
 
 namespace CaddyModel.C08
 
@@ -654,6 +655,141 @@ theorem proxy_retry_match_rule (c : PCfg) (get : Bool) :
   unfold retryable
   split <;> simp_all
 
+/-! ### every strike reaches the count `Healthy()` reads (the three `countFailure` call sites)
+
+`countFailure` is called after a failed round trip (`proxyLoopIteration`), and from `reverseProxy`
+for an answer whose status is listed in `unhealthy_status`. For a request that was held at the
+backend both happen long after the selection — the upstream may have gone down in the meantime
+(other requests failed, the circuit breaker opened). The count must not depend on that: a strike
+that is dropped because the upstream "is down anyway" is missing from the window as soon as the
+older strikes expire. -/
+
+/-- static upstreams, failures remembered: the failed round trip of a held request is counted
+    against its upstream — whatever state the upstream is in by then -/
+theorem proxy_failure_of_held_request_is_counted (c : PCfg) (s : PState) (k i : Nat)
+    (hdyn : c.dyn = false) (hfd : c.fd = true) :
+    (afterLateFail c s k i).fails = incAt s.fails i := by
+  simp [afterLateFail, dropFails, hdyn, hfd]
+
+/-- … so with `max_fails` 1 no state that still remembers it selects that upstream -/
+theorem proxy_upstream_of_failed_held_request_is_down (c : PCfg) (s s' : PState) (k i : Nat)
+    (hdyn : c.dyn = false) (hfd : c.fd = true) (hmf : c.mf ≤ 1)
+    (hs' : s'.fails = (afterLateFail c s k i).fails) : selRes c s' ≠ .sel i := by
+  intro h
+  have h0 := sel_has_no_fails hfd hmf h
+  rw [hs', proxy_failure_of_held_request_is_counted c s k i hdyn hfd, incAt_get] at h0
+  cases hi : s.fails[i]? <;> simp [hi] at h0
+
+/-- … in particular the rest of that request's own proxy loop does not go back to it, and neither
+    tries any upstream twice -/
+theorem proxy_failed_held_request_moves_on (c : PCfg) (s : PState) (k i left : Nat) (get : Bool)
+    (hdyn : c.dyn = false) (hfd : c.fd = true) (hmf : c.mf ≤ 1)
+    (hk : s.held[k]? = some (some i)) (hinfo : s.info[k]? = some (left, get))
+    (tried : List (Option Nat)) (fin : Final) (h : (pstep c s (.fail k)).1 = .late tried fin) :
+    ∃ rest, tried = some i :: rest ∧ some i ∉ rest ∧ fin ≠ .sent i ∧ (rest.filter Option.isSome).Nodup := by
+  simp only [pstep, hk, hinfo] at h
+  have hcount := proxy_failure_of_held_request_is_counted c s k i hdyn hfd
+  have hne : (afterLateFail c s k i).fails[i]? ≠ some 0 := by
+    rw [hcount, incAt_get]
+    cases hi : s.fails[i]? <;> simp
+  split at h
+  · obtain ⟨h1, h2, h3⟩ := attempt_no_retry_of_failed c false get hdyn hfd hmf (left - 1) .other (afterLateFail c s k i)
+    injection h with ht hf
+    refine ⟨_, ht.symm, fun hm => hne (h2 i hm), ?_, h1⟩
+    intro hs
+    exact hne (h3 i (by rw [hf]; exact hs)).1
+  · injection h with ht hf
+    exact ⟨[], ht.symm, by simp, by rw [← hf]; simp, by simp⟩
+
+/-- an answer whose status is listed in `unhealthy_status` is passed on to the client and is a
+    strike against the upstream (static upstreams, failures remembered) — at once for a request
+    that completes, at the end of the round trip for one that was held -/
+theorem proxy_bad_status_is_a_strike (c : PCfg) (s : PState) (i k : Nat)
+    (hdyn : c.dyn = false) (hfd : c.fd = true) (hi : i ∈ c.strike) :
+    (afterSent c false s i).fails = incAt s.fails i ∧
+    (s.held[k]? = some (some i) → (pstep c s (.fin k)).2.fails = incAt s.fails i) := by
+  refine ⟨by simp [afterSent, afterSel, dropFails, strikeInc, hdyn, hfd, hi], ?_⟩
+  intro hk
+  simp [pstep, pstep0, hk, dropFails, strikeInc, hdyn, hfd, hi]
+
+/-- the retries a held request has left are the configured ones minus the iterations it had made -/
+theorem proxy_held_request_remembers_its_retries (c : PCfg) (s : PState) (get : Bool) :
+    (pstep c s (.arrive true get)).2.info =
+      (pstep0 c s (.arrive true get)).2.info ++ [(c.retries - (attempt c true get c.retries .none s).1.length, get)] := by
+  simp [pstep, addInfo]
+
+/-! ### the pool an iteration hands to `Select` (static upstreams, dynamic upstream sources)
+
+A policy can only keep its contract on the pool it is given. `handed` is that pool for one
+iteration of the proxy loop: `proxyLoopIteration` (static upstreams, or the answer of the dynamic
+source, each run through `provisionUpstream`), `MultiUpstreams`, the `a` source. -/
+
+/-- **whatever the source, what `Select` sees carries the handler's options**: the passive health
+    check policy (so `Healthy()` counts failures), the circuit breaker (an open one leaves nothing
+    available), and `unhealthy_request_count` as the limit of an upstream without one of its own -/
+theorem handed_upstreams_are_provisioned (c : DCfg) (foreign : List (DName × Nat)) (static : List DUp) (d : Dyn) (x : Seen)
+    (h : x ∈ handed c foreign static d) :
+    x.passive = c.passive ∧ (c.cb = true → x.avail = false) ∧
+    x.avail = (!c.cb && !(decide (0 < x.max) && decide (x.max ≤ loadOf foreign x.name))) ∧ (0 < c.m → 0 < x.max) ∧
+    ∃ u ∈ iterUpstreams static d, x.name = u.name ∧ (0 < u.max → x.max = u.max) ∧ (u.max = 0 → x.max = c.m) := by
+  simp only [handed, List.mem_map] at h
+  obtain ⟨u, hu, rfl⟩ := h
+  refine ⟨rfl, ?_, rfl, ?_, u, hu, rfl, ?_, ?_⟩
+  · intro hcb; simp [provisionUp, hcb]
+  · intro hm; simp only [provisionUp]; split <;> omega
+  · intro hm; simp only [provisionUp]; split <;> omega
+  · intro hm; simp [provisionUp, hm]
+
+/-- a dynamic source that fails means the static upstreams; one that answers replaces them — also
+    when it answers with no upstream at all -/
+theorem dynamic_source_error_falls_back_to_static (c : DCfg) (foreign : List (DName × Nat)) (static : List DUp) (s : Src) :
+    (srcResult s = none → handed c foreign static (.one s) = handed c foreign static .none) ∧
+    (∀ ups, srcResult s = some ups → handed c foreign static (.one s) = ups.map (provisionUp c foreign)) := by
+  constructor
+  · intro h; simp [handed, iterUpstreams, h]
+  · intro ups h; simp [handed, iterUpstreams, h]
+
+/-- `multi`: the answers of its sources, in the order of the sources; a source that fails is
+    skipped; the static upstreams play no part -/
+theorem multi_source_is_concatenation (c : DCfg) (foreign : List (DName × Nat)) (static : List DUp) (l1 l2 : List Src) (s : Src) :
+    multiResult (l1 ++ l2) = multiResult l1 ++ multiResult l2 ∧
+    (srcResult s = none → multiResult (l1 ++ s :: l2) = multiResult (l1 ++ l2)) ∧
+    (∀ ups, srcResult s = some ups → multiResult (l1 ++ s :: l2) = multiResult l1 ++ ups ++ multiResult l2) ∧
+    handed c foreign static (.multi l1) = handed c foreign [] (.multi l1) := by
+  have happ : ∀ (a b : List Src), multiResult (a ++ b) = multiResult a ++ multiResult b := by
+    intro a b
+    induction a with
+    | nil => simp [multiResult]
+    | cons x xs ih =>
+      simp only [List.cons_append, multiResult]
+      split <;> simp [ih]
+  refine ⟨happ l1 l2, ?_, ?_, rfl⟩
+  · intro h; rw [happ, happ]; simp [multiResult, h]
+  · intro ups h; rw [happ]; simp [multiResult, h]
+
+/-- **one `Host` per dial address**: the requests in flight that `Full()` compares with the limit are
+    those of the whole process — two upstreams with the same dial address and the same limit are
+    available or not together, wherever they come from (static, a source, another source of
+    `multi`), and an upstream is full through the requests of other handlers alone -/
+theorem host_state_is_shared_by_dial_address (c : DCfg) (foreign : List (DName × Nat)) (static : List DUp) (d : Dyn)
+    (x y : Seen) (hx : x ∈ handed c foreign static d) (hy : y ∈ handed c foreign static d)
+    (hn : x.name = y.name) (hm : x.max = y.max) : x.avail = y.avail := by
+  rw [(handed_upstreams_are_provisioned c foreign static d x hx).2.2.1,
+    (handed_upstreams_are_provisioned c foreign static d y hy).2.2.1, hn, hm]
+
+/-- the `a` source looks up only the IP versions its `versions` admit: a name with just an IPv4
+    address yields nothing exactly when IPv6 is asked for and IPv4 is not (and the other way
+    round); neither option set, or both false, means both versions; the port defaults to 80 -/
+theorem a_source_versions_and_port (id : Nat) (port : Option Nat) (v4 v6 : Option Bool) :
+    (srcResult (.a false id port v4 v6) = none ↔ (v6 = some true ∧ v4 ≠ some true)) ∧
+    (srcResult (.a true id port v4 v6) = none ↔ (v4 = some true ∧ v6 ≠ some true)) ∧
+    srcResult (.a false id none v4 v6) = srcResult (.a false id (some 80) v4 v6) ∧
+    (srcResult (.a false id port v4 v6) ≠ none → srcResult (.a false id port v4 v6) = some [⟨.a4 id (port.getD 80), 0⟩]) := by
+  refine ⟨?_, ?_, by simp [srcResult], ?_⟩
+  · rcases v4 with _ | _ | _ <;> rcases v6 with _ | _ | _ <;> simp [srcResult, resolveIp]
+  · rcases v4 with _ | _ | _ <;> rcases v6 with _ | _ | _ <;> simp [srcResult, resolveIp]
+  · rcases v4 with _ | _ | _ <;> rcases v6 with _ | _ | _ <;> simp [srcResult, resolveIp]
+
 /-! ## what the hash / header / query / cookie policies take from the request
 
 `hashKey` is the string handed to `hostByHashing` (or `none`: the fallback decides); two requests
@@ -1013,7 +1149,7 @@ example : exPool.length ≤ [3, 0, 1, 0, 0].length ∧ (selRandom exPool [3, 0, 
 
 -- the proxy loop. static upstreams 7 (dial fails), 9, 11 (own max_requests 2); unhealthy_request_count 1,
 -- fail_duration set, lb_retries 2, policy first:
-def exCfg : PCfg := ⟨false, 1, true, 0, 2, [⟨7, 0, 1⟩, ⟨9, 0, 0⟩, ⟨11, 2, 0⟩], false, 0⟩
+def exCfg : PCfg := ⟨false, 1, true, 0, 2, [⟨7, 0, 1⟩, ⟨9, 0, 0⟩, ⟨11, 2, 0⟩], false, 0, []⟩
 -- held GET: 7 fails (counted), retried on 9 and held there; GET: 9 is at its limit 1 → 11; POST → 11 (limit 2 of its own);
 -- the held request completes
 example : (prun exCfg (pinit .first exCfg []) [.arrive true true, .arrive false true, .arrive false false, .fin 0]).1
@@ -1021,11 +1157,11 @@ example : (prun exCfg (pinit .first exCfg []) [.arrive true true, .arrive false 
     (prun exCfg (pinit .first exCfg []) [.arrive true true, .arrive false true]).2.loads = [0, 1, 0] ∧
     (prun exCfg (pinit .first exCfg []) [.arrive true true, .arrive false true]).2.fails = [1, 0, 0] := by decide
 -- own max_requests 2 beats unhealthy_request_count 1: two held requests fit on address 11, the third is refused
-example : (prun ⟨false, 1, false, 0, 0, [⟨11, 2, 0⟩], false, 0⟩ (pinit .first ⟨false, 1, false, 0, 0, [⟨11, 2, 0⟩], false, 0⟩ [])
+example : (prun ⟨false, 1, false, 0, 0, [⟨11, 2, 0⟩], false, 0, []⟩ (pinit .first ⟨false, 1, false, 0, 0, [⟨11, 2, 0⟩], false, 0, []⟩ [])
     [.arrive true true, .arrive true true, .arrive true true]).1
       = [.req [] (.sent 0), .req [] (.sent 0), .req [none] (.status 503)] := by decide
 -- "other" error: a GET is retried (lb_retries 1, no failure counting: the same upstream again), a POST is not
-example : (prun ⟨false, 0, false, 0, 1, [⟨7, 0, 2⟩, ⟨9, 0, 0⟩], false, 0⟩ (pinit .first ⟨false, 0, false, 0, 1, [⟨7, 0, 2⟩, ⟨9, 0, 0⟩], false, 0⟩ [])
+example : (prun ⟨false, 0, false, 0, 1, [⟨7, 0, 2⟩, ⟨9, 0, 0⟩], false, 0, []⟩ (pinit .first ⟨false, 0, false, 0, 1, [⟨7, 0, 2⟩, ⟨9, 0, 0⟩], false, 0, []⟩ [])
     [.arrive false true, .arrive false false]).1
       = [.req [some 0, some 0] (.status 502), .req [some 0] (.status 502)] := by decide
 -- dynamic upstreams: the failure count lives only as long as somebody references the host, so without other
@@ -1033,8 +1169,8 @@ example : (prun ⟨false, 0, false, 0, 1, [⟨7, 0, 2⟩, ⟨9, 0, 0⟩], false,
 example : (prun { exCfg with dyn := true } (pinit .first { exCfg with dyn := true } []) [.arrive false true]).1
       = [.req [some 0, some 0, some 0] (.status 502)] := by decide
 -- proxy_refuses_only_when_nothing_available: hypotheses inhabited
-example : liveOK (poolOf exCfg ⟨.first, [0, 1, 2], [1, 0, 0], [some 1, some 2, some 2], [], none⟩) .first = true ∧
-    (attempt exCfg false true exCfg.retries .none ⟨.first, [0, 1, 2], [1, 0, 0], [some 1, some 2, some 2], [], none⟩).2.1 = .status 503 := by decide
+example : liveOK (poolOf exCfg ⟨.first, [0, 1, 2], [1, 0, 0], [some 1, some 2, some 2], [], none, []⟩) .first = true ∧
+    (attempt exCfg false true exCfg.retries .none ⟨.first, [0, 1, 2], [1, 0, 0], [some 1, some 2, some 2], [], none, []⟩).2.1 = .status 503 := by decide
 
 -- keys: "10.0.0.5:1234" and "10.0.0.5:80" → "10.0.0.5"; "[fd00::1]:443" → "fd00::1"; "fd00::1" (no port) stays whole
 example : C10.splitHostPort (str "10.0.0.5:1234") = some (str "10.0.0.5", str "1234") ∧
@@ -1134,5 +1270,40 @@ example : (ahRun 1 1 ahInit [false, true, true, false]).map (·.healthy) = [fals
 -- thresholds 3: three failures in a row mark it unhealthy, three passes in a row healthy again (here code and rule agree)
 example : (ahRun 3 3 ahInit [false, false, false, true, true, true]).map (·.healthy) = [true, true, false, false, false, true] ∧
     ahSpecRun 3 3 ⟨true, true, 0⟩ [false, false, false, true, true, true] = [true, true, false, false, false, true] := by decide
+
+/-- two upstreams, `first`, one retry, a circuit breaker, failures remembered; upstream 1 answers with a bad status -/
+def lateCfg : PCfg := ⟨false, 0, true, 0, 1, [⟨7, 0, 0⟩, ⟨9, 0, 0⟩], true, 0, [1]⟩
+
+-- proxy_failure_of_held_request_is_counted / proxy_upstream_of_failed_held_request_is_down: a request is held on
+-- upstream 0, the breaker opens, its round trip fails (the retry finds nothing: 502), the breaker closes: the
+-- strike was counted although the upstream was down when it happened — the next request goes to upstream 1;
+-- proxy_bad_status_is_a_strike: … which answers with a listed status, so the one after that is refused
+example : (prun lateCfg (pinit .first lateCfg []) [.arrive true true, .trip, .fail 0, .untrip, .arrive false true, .arrive false true]).1
+      = [.req [] (.sent 0), .done, .late [some 0, none] (.status 502), .done, .req [] (.sent 1), .req [none, none] (.status 503)] ∧
+    (prun lateCfg (pinit .first lateCfg []) [.arrive true true, .trip, .fail 0, .untrip, .arrive false true, .arrive false true]).2.fails = [1, 1] := by decide
+-- proxy_failed_held_request_moves_on / proxy_held_request_remembers_its_retries: two requests held on upstream 0;
+-- the first fails and moves on to upstream 1 (bad status: a strike); the second fails while upstream 0 is down
+-- already — counted all the same (2) — and finds nothing left
+example : (prun lateCfg (pinit .first lateCfg []) [.arrive true true, .arrive true true, .fail 0, .fail 1]).1
+      = [.req [] (.sent 0), .req [] (.sent 0), .late [some 0] (.sent 1), .late [some 0, none] (.status 502)] ∧
+    (prun lateCfg (pinit .first lateCfg []) [.arrive true true, .arrive true true, .fail 0, .fail 1]).2.fails = [2, 1] ∧
+    (prun lateCfg (pinit .first lateCfg []) [.arrive true true, .arrive true true]).2.info = [(1, true), (1, true)] := by decide
+
+-- handed_upstreams_are_provisioned / dynamic_source_error_falls_back_to_static: unhealthy_request_count 2, passive
+-- checks, an open breaker; the source answers → its upstreams, provisioned; it fails → the static one
+example : handed ⟨2, true, true⟩ [] [⟨.u 1, 0⟩] (.one (.probe true [⟨.u 10, 0⟩, ⟨.u 11, 3⟩])) = [⟨.u 10, 2, true, false⟩, ⟨.u 11, 3, true, false⟩] ∧
+    handed ⟨2, true, true⟩ [] [⟨.u 1, 0⟩] (.one (.probe false [⟨.u 10, 0⟩])) = [⟨.u 1, 2, true, false⟩] ∧
+    handed ⟨0, false, false⟩ [] [⟨.u 1, 0⟩] (.one (.probe true [])) = [] := by decide
+-- host_state_is_shared_by_dial_address: other handlers have 2 requests in flight on address 10 and 1 on the address the
+-- `a` source yields: with unhealthy_request_count 2 the first is full, also where a second source hands it out again
+example : handed ⟨2, true, false⟩ [(.u 10, 2), (.a4 5 80, 1)] [] (.multi [.probe true [⟨.u 10, 0⟩, ⟨.u 11, 0⟩], .a false 5 none none none,
+      .probe true [⟨.u 10, 0⟩, ⟨.u 10, 3⟩]]) =
+    [⟨.u 10, 2, true, false⟩, ⟨.u 11, 2, true, true⟩, ⟨.a4 5 80, 2, true, true⟩, ⟨.u 10, 2, true, false⟩, ⟨.u 10, 3, true, true⟩] := by decide
+-- multi_source_is_concatenation / a_source_versions_and_port: an `a` source asked for IPv6 only on a name with an
+-- IPv4 address fails and is skipped, the probe source and an `a` source (default port) follow in order
+example : handed ⟨0, true, false⟩ [] [⟨.u 1, 0⟩] (.multi [.a false 5 (some 8080) (some false) (some true), .probe true [⟨.u 20, 1⟩],
+      .a true 3 none none none]) = [⟨.u 20, 1, true, true⟩, ⟨.a6 3 80, 0, true, true⟩] ∧
+    handed ⟨0, true, false⟩ [] [⟨.u 1, 0⟩] (.multi [.probe false []]) = [] ∧
+    resolveIp (some false) (some false) = 0 ∧ resolveIp (some true) none = 4 ∧ resolveIp none (some false) = 0 := by decide
 
 end CaddyModel.C08
